@@ -21,7 +21,9 @@ class SchemeRef:
         self.hits = set()          # ('centre', index) / ('descriptor', index) patterns that matched something so far
     def normalise(self, smiles):
         m = Chem.MolFromSmiles(smiles)
-        m = Chem.AddHs(m); Chem.Kekulize(m)
+        # Kekule form with the aromatic flags cleared (what sanitising-without-aromatisation leaves); only the Benson
+        # perception below makes anything aromatic again
+        m = Chem.AddHs(m); Chem.Kekulize(m, clearAromaticFlags=True)
         for b in m.GetBonds():
             if b.GetBondType().name == 'UNSPECIFIED': b.SetBondType(Chem.BondType.ZERO)
         # Benson perception on the unmodified Kekule form
